@@ -21,6 +21,44 @@ import (
 	"google.golang.org/protobuf/reflect/protodesc"
 )
 
+// readFault parses the fault kinds "read:K" (the reader returns K bytes, then an error) and "readpanic:K" (then panics).
+func readFault(f string) (k int, pan bool, ok bool) {
+	for _, pre := range []string{"read:", "readpanic:"} {
+		if strings.HasPrefix(f, pre) {
+			n := 0
+			for _, c := range f[len(pre):] {
+				n = n*10 + int(c-'0')
+			}
+			return n, pre == "readpanic:", true
+		}
+	}
+	return 0, false, false
+}
+
+type failingReader struct {
+	data []byte
+	k    int
+	pos  int
+	pan  bool
+	idx  int64
+}
+
+func (r *failingReader) Read(p []byte) (int, error) {
+	lim := r.k
+	if lim > len(r.data) {
+		lim = len(r.data)
+	}
+	if r.pos >= lim {
+		if r.pan {
+			panic(fmt.Sprintf("injected panic %d", r.idx))
+		}
+		return 0, errors.New("injected read error")
+	}
+	n := copy(p, r.data[r.pos:lim])
+	r.pos += n
+	return n, nil
+}
+
 func main() { vhlib.Main(graphCase) }
 
 func fname(i int64) string { return fmt.Sprintf("f%d.proto", i) }
@@ -114,6 +152,10 @@ func graphCase(in map[string]any) map[string]any {
 		i, ok := idx[path]
 		if !ok {
 			return protocompile.SearchResult{}, fmt.Errorf("file not found: %s", path)
+		}
+		if k, pan, ok := readFault(faults[i]); ok {
+			// the source is handed over, but reading it fails (or panics) after k bytes
+			return protocompile.SearchResult{Source: &failingReader{data: []byte(sources[path]), k: k, pan: pan, idx: i}}, nil
 		}
 		switch faults[i] {
 		case "missing":
